@@ -24,10 +24,10 @@ type c06Case struct {
 }
 
 var clientStepGen = rapid.Custom(func(t *rapid.T) sim.Step {
-	return sim.Step{Op: rapid.SampledFrom([]string{"send", "recv", "closesend", "close", "cancel", "send", "recv", "send", "recv", "recvbad", "drain", "sendbad"}).Draw(t, "cop"), Size: sizeGen.Draw(t, "csize")}
+	return sim.Step{Op: rapid.SampledFrom([]string{"send", "recv", "closesend", "close", "cancel", "send", "recv", "send", "recv", "recvbad", "drain", "sendbad", "flush"}).Draw(t, "cop"), Size: sizeGen.Draw(t, "csize")}
 })
 var handlerStepGen = rapid.Custom(func(t *rapid.T) sim.Step {
-	return sim.Step{Op: rapid.SampledFrom([]string{"recv", "send", "recv", "send", "recv", "send", "recvbad", "sendbad"}).Draw(t, "hop"), Size: sizeGen.Draw(t, "hsize")}
+	return sim.Step{Op: rapid.SampledFrom([]string{"recv", "send", "recv", "send", "recv", "send", "recvbad", "sendbad", "flush"}).Draw(t, "hop"), Size: sizeGen.Draw(t, "hsize")}
 })
 
 // genRPC06 draws independent client and handler programs. Exclusions by construction:
@@ -89,7 +89,12 @@ func genC06(t *rapid.T) c06Case {
 	for i := 0; i < n; i++ {
 		c.RPCs = append(c.RPCs, genRPC06(t, &excl))
 	}
-	switch rapid.IntRange(0, 3).Draw(t, "points") {
+	switch rapid.IntRange(0, 4).Draw(t, "points") {
+	case 2:
+		// a sender is slow between writing its message into the frame writer and flushing it: the call may be
+		// ended by the peer in between, and what was written stays behind in the connection's writer
+		c.Cfg.Points = []string{"stream.MsgSend.beforeFlush"}
+		c.Cfg.PointLimit = 6
 	case 0:
 		c.Cfg.Points = []string{"conn.NewStream.afterNewClientStream", "conn.Invoke.afterNewClientStream", "conn.afterMetadata"}
 	case 1:
